@@ -45,7 +45,7 @@ def match_case(draw, ctx, big=False):
         xd = draw(xs(m, kinds=["unit", "fstep", "motif", "hours"]))
         yd = draw(ys(m, kinds=["int", "sign", "smooth"])) if m <= 300 else _cheap_y(draw, m)
     else:
-        xd = draw(xs(m))
+        xd = draw(xs(m, kinds=["unit", "fstep", "dyadic", "loguni", "motif", "hours", "epoch"]))
         yd = draw(ys(m))
     x, y = xd["x"], yd["y"]
     mode = draw(st.sampled_from(["search", "search", "positions", "indices"]))
@@ -71,9 +71,11 @@ def match_case(draw, ctx, big=False):
         for j, i in enumerate(fixed):
             r = fx[j]
             if offgrid:
-                t = draw(st.sampled_from([0.0, 0.25, 0.45, 1.0, -0.3, -0.45]))
+                t = draw(st.sampled_from([0.25, 0.45, 1.0, -0.3, -0.45, 0.7, -0.8]))
                 left = x[i] - x[i - 1] if i > 0 else None
                 right = x[i + 1] - x[i] if i + 1 < m else None
+                if strategy == "closest" and t != 1.0 and abs(t) >= 0.5:
+                    t = t / 2
                 if strategy == "closest":
                     # |shift| < half gap keeps x[i] the nearest sample; t == 1.0 is the exact midpoint tie (-> lower)
                     if t == 1.0 and right is not None:
